@@ -83,7 +83,7 @@ func genSuffixText(t *rapid.T, maxLen int) (text []byte, family string) {
 	if n > maxLen {
 		n = maxLen
 	}
-	fam := weighted(t, "family", 3, 2, 2, 2, 2, 3, 3, 3, 3, 3, 3, 4, 3, 9, 4)
+	fam := weighted(t, "family", 3, 2, 2, 2, 2, 3, 3, 3, 3, 3, 3, 4, 3, 9, 4, 8)
 	var out []byte
 	switch fam {
 	case 0:
@@ -315,6 +315,18 @@ func genSuffixText(t *rapid.T, maxLen int) (text []byte, family string) {
 			z ^= z >> 31
 			out[i] = byte((z >> 33) % uint64(k))
 		}
+	case 15:
+		// Copies of an ascending chain "AzBzCz..." (every letter followed
+		// by one filler that is larger than all of them): each group of
+		// the rank sort has to walk through all later, still unsorted
+		// groups, which uses up the budget of trsort. Behind each copy a
+		// few runs "MzMzMz" (tandem repeats) with single letters at their
+		// ends, then a byte that occurs once.
+		family = "ascending chains with tandem repeats behind"
+		out = genChainText(t)
+		if len(out) > maxLen {
+			out = out[:maxLen]
+		}
 	default:
 		family = "lz-copy"
 		out = genText(t, "lz", maxInt(n, 1))
@@ -324,7 +336,7 @@ func genSuffixText(t *rapid.T, maxLen int) (text []byte, family string) {
 	}
 	// relabel: map the small symbols to arbitrary byte values so that all 256
 	// values and both orders occur.
-	if (fam < 10 || fam >= 12) && rapid.Bool().Draw(t, "relabel") {
+	if (fam < 10 || fam >= 12) && fam != 15 && rapid.Bool().Draw(t, "relabel") {
 		var m [256]byte
 		for i := range m {
 			m[i] = byte(i)
@@ -351,4 +363,34 @@ func genSuffixText(t *rapid.T, maxLen int) (text []byte, family string) {
 		}
 	}
 	return out, family
+}
+
+// genChainText: see family 15 of genSuffixText. One run letter x for all runs,
+// each run followed by the common follower y = x+1 or by a letter that occurs
+// only once; the copies end with a byte of their own.
+func genChainText(t *rapid.T) []byte {
+	var out []byte
+	k := rapid.IntRange(8, 18).Draw(t, "chainLen")
+	const filler = 'z'
+	x := byte('A' + k)
+	y := x + 1
+	unique := 0
+	for c := rapid.IntRange(2, 4).Draw(t, "chainCopies"); c > 0; c-- {
+		for i := 0; i < k; i++ {
+			out = append(out, byte('A'+i), filler)
+		}
+		for g := rapid.IntRange(1, 4).Draw(t, "chainRuns"); g > 0; g-- {
+			for r := rapid.IntRange(1, 5).Draw(t, "chainRun"); r > 0; r-- {
+				out = append(out, x, filler)
+			}
+			f := y
+			if rapid.IntRange(0, 2).Draw(t, "chainFollower") == 0 && unique < 20 {
+				unique++
+				f = y + byte(unique)
+			}
+			out = append(out, f, filler)
+		}
+		out = append(out, byte('{'+c))
+	}
+	return out
 }
